@@ -29,6 +29,8 @@ def _floors(ctx, st):
     n = ctx._c02_n
     need(g("functions") * 100 >= n * 90, "functions", f"{g('functions')} of {n} generated functions judged ({g('functions_cfg_rejected')} rejected)")
     need(g("back_edges") >= n // 20 and g("cond_branches") >= n // 2, "control flow", f"back edges {g('back_edges')}, conditional branches {g('cond_branches')}")
+    need(g("pipe_judged") * 100 >= g("functions") * 80, "in-pipeline liveness",
+         f"{g('pipe_judged')} functions judged on the live sets found inside the real pass.Compile ({g('pipe_not_judged')} not read back) for {g('functions')} judged directly")
     unresolved = [k for k in st if k.startswith("implicit_register_name_unresolved:")]
     if unresolved:
         ctx.notes.append("implicit register names not resolved independently (register taken from the compiled table): " + ", ".join(unresolved))
